@@ -104,8 +104,35 @@ func (i *interpreter) supplyGlobals() {
 	set("os", "ErrNotExist", i.errorValue("file does not exist"))
 	set("io/fs", "ErrNotExist", i.errorValue("file does not exist"))
 	set("context", "Canceled", i.errorValue("context canceled"))
+	for name, msg := range fsSentinels {
+		set("io/fs", name, i.errorValue(msg))
+		set("os", name, i.errorValue(msg))
+	}
+	set("io/fs", "SkipDir", i.errorValue("skip this directory"))
+	set("io/fs", "SkipAll", i.errorValue("skip everything and stop the walk"))
+	set("path/filepath", "SkipDir", i.errorValue("skip this directory"))
+	set("path/filepath", "SkipAll", i.errorValue("skip everything and stop the walk"))
+	set("io", "ErrShortWrite", i.errorValue("short write"))
+	set("io", "ErrShortBuffer", i.errorValue("short buffer"))
+	set("io", "ErrClosedPipe", i.errorValue("io: read/write on closed pipe"))
+	set("io", "ErrNoProgress", i.errorValue("multiple Read calls return no data or error"))
 	set("github.com/syndtr/goleveldb/leveldb", "ErrNotFound", i.errorValue("leveldb: not found"))
 	set("github.com/syndtr/goleveldb/leveldb/errors", "ErrNotFound", i.errorValue("leveldb: not found"))
+}
+
+var fsSentinels = map[string]string{
+	"ErrInvalid": "invalid argument", "ErrPermission": "permission denied", "ErrExist": "file already exists", "ErrClosed": "file already closed",
+}
+
+func init() {
+	for name := range fsSentinels {
+		suppliedGlobal["io/fs."+name] = true
+		suppliedGlobal["os."+name] = true
+	}
+	for _, g := range []string{"io/fs.SkipDir", "io/fs.SkipAll", "path/filepath.SkipDir", "path/filepath.SkipAll",
+		"io.ErrShortWrite", "io.ErrShortBuffer", "io.ErrClosedPipe", "io.ErrNoProgress"} {
+		suppliedGlobal[g] = true
+	}
 }
 
 var suppliedGlobal = map[string]bool{
@@ -120,9 +147,9 @@ func (i *interpreter) ensureInit(pkg *ssa.Package, g *ssa.Global) {
 		return
 	}
 	if path == "io" || path == "io/fs" || path == "context" {
-		// only sentinel errors are supported from these
-		i.initState[pkg] = 2
-		return
+		// only the sentinel errors supplied above are supported from these; anything else would
+		// silently read as a zero value, so it is refused
+		panic(inconclusive{"global " + path + "." + g.Name() + " is not supplied by the executor"})
 	}
 	if denyInit(path) {
 		if os.Getenv("GOSYM_DEBUG_INIT") != "" {
